@@ -21,6 +21,21 @@ def run(tier):
     res = vlib.run_tlc("MC_Server", "MC_Server_B2.cfg", "C15/mc_srv", workers=8, timeout=900, collect_prints=False)
     vlib.expect_model_ok(res, "Server.tla")
     c.add_model("MC_Server/B2 (worker keeps serving)", res)
+    # health-check listener: Health.tla (edge-triggered accept loop), schedules replayed into an in-process Server
+    import json
+    sched = vlib.workfile("C15", "health_schedules.ndjson")
+    with open(sched, "w") as f:
+        res = vlib.run_tlc("MC_Health", "MC_Health_loop.cfg", "C15/mc_health", workers=4, timeout=600,
+                           print_sink=lambda o: f.write(json.dumps(o) + "\n"))
+    vlib.expect_model_ok(res, "Health.tla (accept until WouldBlock)")
+    c.add_model("MC_Health/loop (NoStrandedConn, HcLive)", res)
+    for cfg in ("MC_Health_one.cfg", "MC_Health_bounded.cfg"):
+        m = vlib.run_tlc("MC_Health", cfg, "C15/mc_health_selftest", workers=4, timeout=300, collect_prints=False)
+        if m.violated != "NoStrandedConn":
+            raise vlib.ToolError("Health.tla self-test %s: a single or bounded accept per edge should strand connections" % cfg)
+    from checks import servercommon as sc
+    sc.REASONS["C15"] = {"health_check_unanswered", "no_reply_to_valid", "panic", "wedged"}
+    sc.server_stage(c, "health", "health", inp=sched)
     pc.run_scenarios(c, pc.c15_scenarios(tier, c.seed), "configs")
     c.rule = ("code->spec: the real server binary started for the repository's example.cfg, a default-worker-count configuration and a sample of the "
               "documented option space (quick: 11, thorough: 120 of num_workers 1..16 x health check x batch_size {1,2,63,64} x fault_percentage {0,1,50} x "
@@ -29,6 +44,9 @@ def run(tier):
               "response while time requests are answered, no panic output, process alive; distinct = (N, hc, client_stats, source, signal) classes")
     c.assumptions = ["TLC 1.8", "thread schedules and kernel socket distribution of the real process are sampled, exhaustive only in the model (N<=3)",
                      "free UDP/TCP ports are picked by binding port 0 first (small race); example.cfg uses its fixed ports 8686/8000"]
+    if tier == "thorough":
+        from checks import selftests
+        selftests.run_for(c)
     return c.finish()
 
 
